@@ -12,7 +12,7 @@ VARIABLES tree, listed
 x == V("x")  y == V("y")  z == V("z")  bb == V("b")
 ff == V("f") gg == V("g") tt == V("t") oo == V("o")
 
-NumLeaves  == { x, y, z, KI(0), KI(2), KI(-1), K(FltV(3, 2)), K(FltV(-1, 2)) }
+NumLeaves  == { x, y, z, V("Y"), KI(0), KI(2), KI(-1), K(FltV(3, 2)), K(FltV(-1, 2)) }
 BoolLeaves == { bb, K(BoolV(TRUE)) }
 Conds == BoolLeaves \cup { Cmp(x, "<", y), Cmp(x, "==", z), U("LogNot", bb),
                            N("LogAnd", << bb, Cmp(y, ">=", KI(0)) >>) }
@@ -61,6 +61,11 @@ Roots ==
          B("Sub", tt, A), B("Sub", tt, N("Tup", << KI(0) >>)), Look(oo, "p"), Look(oo, "q") }
   \cup { N("Tup", << A, L >>), N("Tup", << A >>) }
   \cup NumLeaves \cup BoolLeaves
+  \* mixed-case names (ASCII order puts upper case first) and long n-ary nodes
+  \cup { N("Sum", << V("N"), N("Product", << KI(10), V("a0") >>), A >>) }
+  \cup { N(k, << x, y, z, KI(2), V("Y"), x, y, KI(-1), z >>) : k \in {"Sum", "Product", "BitXor"} }
+  \cup { N("Sum", << x, y, z, KI(2), V("Y"), x, y, KI(-1), z, KI(3), y >>),
+         N("Sum", << x, y, z, KI(2), V("Y"), x, y, KI(-1), z, KI(3), y, x, KI(5) >>) }
 
 Unset == << "?" >>
 Listings == { << >>, << "x" >>, << "y" >>, << "w" >>, << "x", "y" >>, << "y", "x" >>,
